@@ -104,6 +104,20 @@ class _Hung(Exception):
     pass
 
 
+def _plain(x):
+    """str / dict / list SUBCLASS instances -> the builtin types (observations cross process
+    boundaries and are compared structurally; the JSON type is what matters)"""
+    if isinstance(x, bool) or x is None or type(x) in (int, float, str):
+        return x
+    if isinstance(x, str):
+        return str(x)
+    if isinstance(x, dict):
+        return {_plain(k): _plain(v) for k, v in x.items()}
+    if isinstance(x, (list, tuple)):
+        return [_plain(v) for v in x]
+    return x
+
+
 class _Unprintable(Exception):
     def __str__(self):
         raise RuntimeError("str() of this exception fails")
@@ -167,7 +181,7 @@ def _helpers():
     return out
 
 
-async def _one(case, token, obs, streams=None):
+async def _one(case, token, obs, streams=None, cancel_fn=None):
     """One request, started now; event / completion ticks relative to the start.  `streams` =
     (in_send, in_recv, out_send, out_recv) of a connection shared with earlier requests (then the
     write stream is unbounded and always open), else fresh streams."""
@@ -209,7 +223,7 @@ async def _one(case, token, obs, streams=None):
                 break
             if m is _FILLER:
                 continue
-            d = m.model_dump(exclude_none=True) if hasattr(m, "model_dump") else m
+            d = _plain(m.model_dump(exclude_none=True) if hasattr(m, "model_dump") else m)
             writes.append(d)
             if isinstance(d, dict) and "id" in d and d.get("method") and d.get("method") != "notifications/cancelled":
                 if ctx["id"] is None:
@@ -247,9 +261,20 @@ async def _one(case, token, obs, streams=None):
     cbs = []
     raises = set(case.get("cbRaises") or [])
 
+    cb_ticks = []
+
     async def cb(progress, total, message):
         k = len(cbs)
         cbs.append([progress, total, message])
+        cb_ticks.append(loop.ticks - t0)
+        act = case.get("cbAction")
+        if act and k == act[1]:
+            # re-entrancy: the callback uses the objects the call itself is using
+            if act[0] == "cancel" and cancel_fn is not None:
+                cancel_fn()
+            elif act[0] == "send":
+                from chuk_mcp.protocol.messages.json_rpc_message import create_notification
+                await out_send.send(create_notification(method="notifications/message", params={"from": "callback"}))
         if k in raises:
             raise _CB_EXCEPTIONS[(case.get("cbExc", 0) + k) % len(_CB_EXCEPTIONS)]()
 
@@ -295,7 +320,10 @@ async def _one(case, token, obs, streams=None):
             else:
                 kwargs = {}
                 if case.get("id") is not None:
-                    kwargs["message_id"] = _idval(case["id"], {})
+                    mid = _idval(case["id"], {})
+                    if case.get("idSubclass") and isinstance(mid, str):
+                        mid = type("CallerStr", (str,), {})(mid)  # a str SUBCLASS as the caller's id
+                    kwargs["message_id"] = mid
                 if token is not None:
                     kwargs["cancellation_token"] = token
                 if case.get("progress"):
@@ -334,6 +362,7 @@ async def _one(case, token, obs, streams=None):
     drain()
     obs["writes"] = writes
     obs["cbs"] = cbs
+    obs["cb_ticks"] = cb_ticks
     obs["sent_id"] = ctx["id"]
     obs["tok"] = ctx["tok"]
     return obs
@@ -386,7 +415,7 @@ def run_case(case):
             cancel()
         if case.get("cancelAt") is not None:
             loop.at(case["cancelAt"], cancel)
-        await _one(case, token, obs)
+        await _one(case, token, obs, cancel_fn=cancel)
 
     vloop.run(main, tie=case.get("tie", "events"))
     return obs
